@@ -83,6 +83,22 @@ end Arr;
 """},
         "lib": {},
     },
+    "Big": {
+        # large enough for the pickled cache file to span several pickle frames (several write calls)
+        "model": {"Big.mo": """model Big
+  parameter Real k = {a};
+  parameter Real lim = {b};
+  Real x[120](each start = {c}, each max = lim * 3);
+  Real s;
+{EXTRA_DECL}equation
+  for i in 1:120 loop
+    der(x[i]) = -k * x[i] * i + {d};
+  end for;
+{EXTRA_EQ}  s = x[1] + x[120];
+end Big;
+"""},
+        "lib": {},
+    },
     "Del": {
         "model": {"Del.mo": """model Del
   parameter Real tau = {a};
